@@ -115,7 +115,12 @@ pub fn gen(seed: u64, prop: &str) -> TCase {
             }
             5 | 6 => TOp::Spend { who: if rng.chance(2, 3) { 0 } else { rng.below(6) as u8 }, denom: rng.below(5) as u8, amount: *rng.pick(&[1u128, 1000, 5_000_000]), receiver: rng.below(14) as u8, channel: if rng.chance(1, 2) { Some(rng.below(3) as u8) } else { None } },
             7 => {
-                let new_routes = if rng.chance(1, 2) { Some((0..rng.below(4)).map(|_| gen_route(&mut rng)).collect::<Vec<_>>()) } else { None };
+                // sometimes the admin re-submits the list unchanged (e.g. while rotating the trader)
+                let new_routes = match rng.below(6) {
+                    0 | 1 => Some(routes.clone()),
+                    2 | 3 => Some((0..rng.below(4)).map(|_| gen_route(&mut rng)).collect::<Vec<_>>()),
+                    _ => None,
+                };
                 if let Some(r) = &new_routes {
                     if rng.chance(2, 3) {
                         routes = r.clone();
@@ -125,7 +130,7 @@ pub fn gen(seed: u64, prop: &str) -> TCase {
             }
             8 => {
                 nominated = true;
-                TOp::Transfer { who: if rng.chance(3, 4) { 0 } else { rng.below(6) as u8 }, cand: rng.below(4) as u8 }
+                TOp::Transfer { who: if rng.chance(3, 4) { 0 } else { rng.below(6) as u8 }, cand: if rng.chance(1, 6) { 7 } else { rng.below(4) as u8 } }
             }
             9 => TOp::Revoke { who: if rng.chance(1, 2) { 0 } else { rng.below(6) as u8 } },
             10 => TOp::Accept { who: rng.below(6) as u8 },
@@ -352,7 +357,7 @@ pub fn eval(c: &TCase) -> Eval {
             }
             TOp::Transfer { who, cand } => {
                 let sender = who_addr(&m, *who);
-                let cnd = fixed[2 + *cand as usize % 4].clone();
+                let cnd = if *cand >= 6 { m.admin.clone() } else { fixed[2 + *cand as usize % 4].clone() };
                 let res = w.tx_execute(&t, &sender, &[], &json!({"transfer_ownership": {"new_owner": cnd}}).to_string());
                 ev.stats.txs += 1;
                 if res.ok {
